@@ -177,6 +177,39 @@ func (k *Sink) SolveAll(ctx *Ctx, cfg *SolverConfig) []*ObResult {
 		}()
 	}
 	wg.Wait()
+	// second round: a query nobody decided within the time-out is retried with a
+	// six-fold time-out and little competition for the cores, so that a loaded
+	// machine does not turn a provable obligation into an alarm
+	var retry []*job
+	for _, j := range jobs {
+		if !j.insts[0].Vacuity && j.insts[0].Result != nil && j.insts[0].Result.Status == Unknown {
+			retry = append(retry, j)
+		}
+	}
+	if len(retry) > 0 && len(retry) <= 40 {
+		sem2 := make(chan struct{}, 4)
+		for _, j := range retry {
+			j := j
+			wg.Add(1)
+			sem2 <- struct{}{}
+			go func() {
+				defer wg.Done()
+				defer func() { <-sem2 }()
+				first := j.insts[0]
+				c2 := *cfg
+				c2.TimeoutSec = cfg.TimeoutSec * 6
+				r := ctx.Solve(&c2, first.Name, first.Hyps, first.Goal)
+				r.Seconds += first.Result.Seconds
+				if r.Status == Unknown {
+					r.Output = "retried with " + fmt.Sprint(c2.TimeoutSec) + "s: " + r.Output
+				}
+				for _, in := range j.insts {
+					in.Result = r
+				}
+			}()
+		}
+		wg.Wait()
+	}
 	// aggregate
 	agg := map[string]*ObResult{}
 	var order []string
